@@ -39,12 +39,15 @@
     do {                                                                     \
         printf("REPLAY-END-REACHED\n");                                      \
     } while (0)
+# define WITNESS_AT(name) do { } while (0)
 # define VERIF_INPUT(T, v) T v = REPLAY_IN_INIT
 # define VERIF_MAIN int main(void)
 #else
 # define CHECK(c, msg) __CPROVER_assert((c), msg)
 # define ASSUME(c) __CPROVER_assume(c)
 # define WITNESS() __CPROVER_assert(0, "WITNESS")
+/* additional named reachability witnesses: EVERY one of them must be reachable */
+# define WITNESS_AT(name) __CPROVER_assert(0, "WITNESS " name)
 # define VERIF_INPUT(T, v)                                                   \
     T nondet_verif_input_##v(void);                                          \
     T v = nondet_verif_input_##v()
